@@ -53,7 +53,7 @@ def run(v, tier, seed, replay):
         raise Infra("SUVec violates %s in the shape exploration (model defect)" % rs.violated)
     rv = [e for e in rs.edges if e["act"]["arv"] or e["act"]["brv"]]
     shsegs = []
-    for (ds, dl), mod in ([((2, 3), 6), ((4, 5), 12), ((6, 3), 12)] if tier == "quick" else [((2, 3), 1), ((4, 5), 2), ((6, 3), 2), ((5, 2), 3)]):
+    for (ds, dl), mod in ([((2, 3), 6), ((2, 4), 12), ((3, 5), 12), ((4, 5), 16)] if tier == "quick" else [((2, 3), 1), ((2, 4), 2), ((3, 5), 2), ((4, 6), 3), ((4, 5), 3)]):
         keep = lambda i, e: int(hashlib.md5(("%d|%d|%d|%s" % (seed, ds, dl, json.dumps(e["act"], sort_keys=True) + json.dumps(e["kinds"]))).encode()).hexdigest()[:6], 16) % mod == 0
         scripts = suvec.shape_scripts(rv, ds, dl, keep)
         sg, inf = suvec.run_paths(exe, scripts)
